@@ -502,8 +502,16 @@ xds_decoder(vbi_decoder *vbi, int _class, int type,
 				sum |= 1UL << 30;
 
 				if (sum != n->nuid) {
-					if (n->nuid != 0)
+					if (n->nuid != 0) {
+						/* Resets the caption decoder
+						   (which takes cc.mutex itself)
+						   and may send events. */
+						pthread_mutex_unlock(&vbi->cc.mutex);
+
 						vbi_chsw_reset(vbi, sum);
+
+						pthread_mutex_lock(&vbi->cc.mutex);
+					}
 
 					n->nuid = sum;
 
@@ -710,7 +718,13 @@ itv_separator(vbi_decoder *vbi, struct caption *cc, char c)
 
 	ITV_DEBUG(printf("ITV: <%s>\n", cc->itv_buf));
 
+	/* May send a trigger event: like caption_send_event() permit
+	   calling vbi_fetch_cc_page from the handler. */
+	pthread_mutex_unlock(&cc->mutex);
+
 	vbi_atvef_trigger(vbi, cc->itv_buf);
+
+	pthread_mutex_lock(&cc->mutex);
 }
 
 /*
@@ -1413,11 +1427,9 @@ vbi_decode_caption(vbi_decoder *vbi, int line, uint8_t *buf)
  * has been detected (i. e. vbi data has been lost)
  * to reset the Closed Caption decoder.
  */
-void
-vbi_caption_desync(vbi_decoder *vbi)
+static void
+caption_desync(struct caption *cc)
 {
-	struct caption *cc = &vbi->cc;
-
 	/* cc->curr_chan = 8; *//* garbage */
 
 	/* cc->xds = FALSE; */
@@ -1428,6 +1440,19 @@ vbi_caption_desync(vbi_decoder *vbi)
 	}
 
 	cc->itv_count = 0;
+}
+
+void
+vbi_caption_desync(vbi_decoder *vbi)
+{
+	struct caption *cc = &vbi->cc;
+
+	/* Called by vbi_decode() outside vbi_decode_caption(). */
+	pthread_mutex_lock(&cc->mutex);
+
+	caption_desync(cc);
+
+	pthread_mutex_unlock(&cc->mutex);
 }
 
 /**
@@ -1443,6 +1468,10 @@ vbi_caption_channel_switched(vbi_decoder *vbi)
 	struct caption *cc = &vbi->cc;
 	cc_channel *ch;
 	int i;
+
+	/* Called outside vbi_decode_caption() (vbi_chsw_reset, vbi_event_enable)
+	   while another thread may be in vbi_fetch_cc_page(). */
+	pthread_mutex_lock(&cc->mutex);
 
 	for (i = 0; i < 9; i++) {
 		ch = &cc->channel[i];
@@ -1486,7 +1515,9 @@ vbi_caption_channel_switched(vbi_decoder *vbi)
 	cc->info_cycle[0] = 0;
 	cc->info_cycle[1] = 0;
 
-	vbi_caption_desync(vbi);
+	caption_desync(cc);
+
+	pthread_mutex_unlock(&cc->mutex);
 }
 
 static vbi_rgba
